@@ -1004,7 +1004,22 @@ func (f *frame) applyCallback(ct *Contract, p *ssa.Parameter, c *ssa.CallCommon,
 
 // atCallAssertions: obligations the enclosing function's contract attaches to its calls of the named callee.
 // The clauses see the call's arguments as arg0, arg1, ... (receiver first), the function's parameters and locals.
+// noCallCheck: a contract may say that the function does not call a given callee itself (e.g. it does not re-arm a
+// timer): a call that is present is a failed obligation.
+func (f *frame) noCallCheck(callee string, pos token.Pos) {
+	if f.contract == nil || !f.top {
+		return
+	}
+	for _, n := range f.contract.NoCalls {
+		if n == callee {
+			o := f.obligeAt(f.R, "nocall", callee, nil, "false", pos)
+			o.Src = "the contract says this function does not call " + callee
+		}
+	}
+}
+
 func (f *frame) atCallAssertions(callee string, c *ssa.CallCommon, args []Val, pos token.Pos) {
+	f.noCallCheck(callee, pos)
 	if f.contract == nil || !f.top || len(f.contract.AtCalls[callee]) == 0 {
 		return
 	}
@@ -1024,6 +1039,7 @@ func (f *frame) atCallAssertions(callee string, c *ssa.CallCommon, args []Val, p
 
 // atCallAssertionsIface: atcall clauses for interface method calls (arg0 is the receiver value).
 func (f *frame) atCallAssertionsIface(callee string, c *ssa.CallCommon, args []Val, pos token.Pos) {
+	f.noCallCheck(callee, pos)
 	if f.contract == nil || !f.top || len(f.contract.AtCalls[callee]) == 0 {
 		return
 	}
